@@ -370,6 +370,16 @@ def pcleanup(labels=None):
     flags = {'connection_reset': False}
 
     try:
+        # EvolveAppTask.prepare_tasks() leaves this set when preparing the
+        # tasks raises; the next Evolver in this process would then trip
+        # over an assertion.
+        from django_evolution.utils.migrations import \
+            clear_global_custom_migrations
+        clear_global_custom_migrations()
+    except Exception:
+        pass
+
+    try:
         _purge_models(labels)
     except Exception:
         pass
@@ -579,6 +589,7 @@ class Tracker(object):
     def __init__(self, apps_spec):
         self.apps = OrderedDict()
         self.deleted = set()
+        self.deleted_tables = set()
         self.renamed_models = []   # (uid, old 'app.Model', new 'app.Model')
         uid = itertools.count(1)
         by_name = {}
@@ -594,6 +605,7 @@ class Tracker(object):
                         label, model_name.lower()),
                     'fields': OrderedDict(),
                 }
+                entry['tables'] = [entry['table']]
                 self.apps[label][model_name] = entry
                 by_name[(label, model_name)] = entry['uid']
 
@@ -659,6 +671,7 @@ class Tracker(object):
             attrs = desc[3] if len(desc) > 3 else {}
             entry = models_map[old]
             entry['table'] = attrs.get('db_table')
+            entry['tables'].append(entry['table'])
             self.apps[label] = OrderedDict(
                 (new if name == old else name, value)
                 for name, value in models_map.items())
@@ -666,10 +679,13 @@ class Tracker(object):
                                         '%s.%s' % (label, old),
                                         '%s.%s' % (label, new)))
         elif kind == 'DeleteModel':
-            self.deleted.add(models_map.pop(desc[1])['uid'])
+            entry = models_map.pop(desc[1])
+            self.deleted.add(entry['uid'])
+            self.deleted_tables.update(entry['tables'])
         elif kind == 'DeleteApplication':
             for entry in models_map.values():
                 self.deleted.add(entry['uid'])
+                self.deleted_tables.update(entry['tables'])
 
             models_map.clear()
         elif kind == 'DeleteField':
@@ -750,7 +766,8 @@ class Tracker(object):
 
         if models_map:
             result.append(['DeleteApplication'])
-            result.append(['RenameAppLabel', label, label + 'x', {}])
+            if label + 'x' not in self.apps:
+                result.append(['RenameAppLabel', label, label + 'x', {}])
 
             if len(label) > 2 and label[:-1] not in self.apps:
                 result.append(['RenameAppLabel', label, label[:-1], {}])
@@ -814,7 +831,7 @@ C11_FAMILIES = OrderedDict([
                                         'related_name': '+'})),
             ])}),
         ])),
-        ('treex', OrderedDict([
+        ('forest', OrderedDict([
             ('Leaf', {'fields': OrderedDict([
                 ('node', ('ForeignKey', {'to': 'tree.Node'})),
                 ('link', ('OneToOneField', {'to': 'tree.NodeLink',
@@ -1039,6 +1056,22 @@ def c11_run(family, steps, mode='separate', with_db=True):
                 for desc in descs:
                     current = tracker.apply(current, desc)
 
+        if (result['error'] is not None and len(steps) == 1 and
+            mode in ('separate', 'simulate') and
+            steps[0][1][0] in ('RenameModel', 'RenameField',
+                               'RenameAppLabel') and
+            result['error']['class'] not in REJECTIONS and
+            result['error']['phase'] in ('simulate', 'sql')):
+            # The property says renames rewrite every reference (both
+            # directions of many-to-many relations): a rename of an existing
+            # model/field/label to a free name that the library neither
+            # performs nor rejects as unsupported, but crashes on, is a
+            # violation.
+            result['failures'].append(('rename-accepted', dict(
+                result['error'])))
+            result['error_is_failure'] = True
+            result['nontrivial'] = True
+
         if result['error'] is None:
             final = sig_snapshot(project_sig)
             result['final_sig'] = final
@@ -1048,7 +1081,7 @@ def c11_run(family, steps, mode='separate', with_db=True):
                 from django.db import connections
 
                 H._reset_connection(connections['default'])
-                result['failures'] += _c11_db_clauses(final)
+                result['failures'] += _c11_db_clauses(final, tracker)
 
             result['nontrivial'] = _c11_nontrivial(start, steps)
     finally:
@@ -1123,10 +1156,11 @@ def _c11_sig_clauses(tracker, final):
     return failures
 
 
-def _c11_db_clauses(final):
+def _c11_db_clauses(final, tracker):
     """Database side: every FK names an existing table/column, relations of
     the final signature point at the table the signature gives for their
-    target, and the rows still validate."""
+    target, and the rows still validate.  References to the table of an
+    explicitly deleted model are exempt (the property's "unless")."""
     failures = []
     schema = H.introspect_schema('default')
     pk_columns = {}
@@ -1137,6 +1171,9 @@ def _c11_db_clauses(final):
     for table, info in schema.items():
         for ref_table, from_col, to_col in info['foreign_keys']:
             problem = None
+
+            if ref_table in tracker.deleted_tables:
+                continue
 
             if ref_table not in schema:
                 problem = 'references missing table'
@@ -1197,7 +1234,8 @@ def _c11_db_clauses(final):
                             model['table']]['foreign_keys']]}))
 
     try:
-        violations = H.fk_check('default')
+        violations = [item for item in H.fk_check('default')
+                      if item[2] not in tracker.deleted_tables]
 
         if violations:
             failures.append(('db-fk-validates', {
@@ -1207,3 +1245,1745 @@ def _c11_db_clauses(final):
             'foreign_key_check_error': '%s: %s' % (type(e).__name__, e)}))
 
     return failures
+
+
+def _c11_sequences(family, depth, rich):
+    """All step sequences of exactly ``depth`` mutations for a family
+    (each step picks any app of the project as it is at that point)."""
+    apps_spec = C11_FAMILIES[family]
+
+    def rec(tracker, prefix, remaining):
+        if remaining == 0:
+            yield prefix
+            return
+
+        for label in list(tracker.apps):
+            for desc in tracker.candidates(label, rich=rich):
+                nxt = tracker.clone()
+                nxt.apply(label, desc)
+
+                for seq in rec(nxt, prefix + [[label, desc]],
+                               remaining - 1):
+                    yield seq
+
+    return rec(Tracker(apps_spec), [], depth)
+
+
+def _c11_scenarios(tier, seed):
+    rng = random.Random(seed)
+    scenarios = []
+    exhaustive = True
+
+    for family in C11_FAMILIES:
+        singles = list(_c11_sequences(family, 1, True))
+
+        for steps in singles:
+            scenarios.append((family, steps, 'separate'))
+            scenarios.append((family, steps, 'simulate'))
+
+            if steps[0][1][0] == 'RenameAppLabel':
+                scenarios.append((family, steps, 'legacy'))
+
+        pairs = list(_c11_sequences(family, 2, False))
+
+        if tier == 'quick':
+            exhaustive = False
+            pairs = rng.sample(pairs, min(len(pairs), 60))
+
+        for steps in pairs:
+            same_app = steps[0][0] == steps[1][0] or (
+                steps[0][1][0] == 'RenameAppLabel' and
+                steps[0][1][2] == steps[1][0])
+            scenarios.append((family, steps, 'separate'))
+
+            if same_app:
+                # Same app: also as ONE evolution through one AppMutator
+                # (the step labels then name the app's label at the start
+                # of the group).
+                first_label = steps[0][0]
+                scenarios.append((family,
+                                  [[first_label, steps[0][1]],
+                                   [first_label, steps[1][1]]], 'batched'))
+
+                if any(step[1][0] == 'RenameAppLabel' for step in steps):
+                    scenarios.append((family,
+                                      [[first_label, steps[0][1]],
+                                       [first_label, steps[1][1]]],
+                                      'legacy'))
+
+        if tier != 'quick':
+            exhaustive = False
+            triples = []
+            # Sampled without materialising the (large) full product.
+            tracker0 = Tracker(C11_FAMILIES[family])
+
+            for _i in range(1200):
+                tracker = tracker0.clone()
+                steps = []
+
+                for _d in range(3):
+                    labels = [label for label in tracker.apps
+                              if tracker.apps[label]]
+
+                    if not labels:
+                        break
+
+                    label = rng.choice(labels)
+                    desc = rng.choice(tracker.candidates(label, rich=True))
+                    steps.append([label, desc])
+                    tracker.apply(label, desc)
+
+                if len(steps) == 3:
+                    triples.append(steps)
+
+            for steps in triples:
+                scenarios.append((family, steps, 'separate'))
+                scenarios.append((family, steps, 'simulate'))
+
+    return scenarios, exhaustive
+
+
+def _json(value):
+    return json.loads(json.dumps(H.to_jsonable(value)))
+
+
+def _is_known(prop, clause, inputs, observed=None):
+    for entry in KNOWN:
+        if entry['property'] != prop or entry['clause'] != clause:
+            continue
+
+        if entry['predicate'](inputs, observed):
+            return True
+
+    return False
+
+
+def _run_suite(prop, scenarios, runner, describe, tier, exhaustive, rule,
+               time_budget=None):
+    t0 = time.time()
+    evaluations = 0
+    nontrivial = set()
+    failures = []
+    failure_counts = OrderedDict()
+    skipped = OrderedDict()
+    samples = []
+    truncated = False
+
+    for scenario in scenarios:
+        if time_budget and time.time() - t0 > time_budget:
+            truncated = True
+            break
+
+        inputs = describe(scenario)
+        outcome = runner(scenario)
+        evaluations += 1
+
+        if outcome.get('error'):
+            key = '%s/%s' % (outcome['error'].get('phase'),
+                             outcome['error'].get('class'))
+            skipped[key] = skipped.get(key, 0) + 1
+
+            if outcome.get('error_is_failure'):
+                pass
+            else:
+                continue
+
+        if outcome.get('nontrivial'):
+            nontrivial.add(json.dumps(_json(inputs), sort_keys=True))
+
+        if len(samples) < 3 and outcome.get('nontrivial') and \
+           evaluations % 7 == 1:
+            samples.append({'inputs': _json(inputs),
+                            'outcome': 'ok' if not outcome['failures']
+                            else _json(outcome['failures'][:2])})
+
+        for clause, observed in outcome['failures']:
+            known = _is_known(prop, clause, inputs, observed)
+            key = '%s%s' % (clause, '' if known else ' (UNKNOWN)')
+            failure_counts[key] = failure_counts.get(key, 0) + 1
+            per_clause = sum(1 for item in failures
+                             if item['clause'] == clause and
+                             item['known'] == known)
+
+            if len(failures) < 10 and per_clause < (2 if known else 5):
+                failures.append({'clause': clause,
+                                 'inputs': _json(inputs),
+                                 'observed': _json(observed),
+                                 'known': known})
+
+    if not samples and evaluations:
+        samples.append({'inputs': _json(describe(scenarios[0])),
+                        'outcome': 'see failures/skip counts'})
+
+    return {
+        'evaluations': evaluations,
+        'distinct_nontrivial': len(nontrivial),
+        'failures': failures,
+        'failure_counts': failure_counts,
+        'skipped': skipped,
+        'samples': samples,
+        'exhaustive': bool(exhaustive and not truncated),
+        'truncated_by_time_budget': truncated,
+        'rule': rule,
+        'elapsed': round(time.time() - t0, 2),
+    }
+
+
+def suite_C11(tier='quick', seed=0):
+    psetup()
+    scenarios, exhaustive = _c11_scenarios(tier, seed)
+
+    def describe(scenario):
+        family, steps, mode = scenario
+        return {'family': family, 'steps': steps, 'mode': mode}
+
+    def runner(scenario):
+        family, steps, mode = scenario
+        return c11_run(family, steps, mode)
+
+    rule = (
+        'Three fixed 2-app projects (C11_FAMILIES: shop/crm with cross-app '
+        'FK/O2O/M2M and model names that are prefixes of each other; '
+        'tree/forest with self FK, self M2M and two FKs to one model; '
+        'lib/ext with a CharField primary key referenced from both apps). '
+        'Mutation alphabet derived from the current project state (Tracker.'
+        'candidates): RenameModel to an extended/truncated name with the old '
+        'or a new db_table, DeleteModel, RenameField/DeleteField of every '
+        'relation and custom pk field, DeleteApplication, RenameAppLabel '
+        '(whole app, extended/truncated label, and model_names subsets). '
+        'quick: ALL single mutations (AppMutator + real SQL, and signature-'
+        'only through run_simulation) + %s ordered pairs per project '
+        '(separately and, for same-app pairs, as one AppMutator batch / as '
+        'the Evolver would run an app with a legacy label); thorough: ALL '
+        'ordered pairs + 1200 random triples per project. A scenario is '
+        'non-trivial when the real code accepted every mutation (no '
+        'SimulationFailure/other exception) so that the clauses were '
+        'evaluated; rejected scenarios are only counted in "skipped".'
+        % ('60 random' if tier == 'quick' else 'all'))
+
+    return _run_suite('C11', scenarios, runner, describe, tier, exhaustive,
+                      rule)
+
+
+def replay_C11(inputs):
+    outcome = c11_run(inputs['family'], inputs['steps'],
+                      inputs.get('mode', 'separate'))
+    return {'reproduced': bool(outcome['failures']),
+            'error': outcome['error'],
+            'failures': _json(outcome['failures'])}
+
+
+# ---------------------------------------------------------------------------
+# Evolver-level helpers (C14, C15, C16)
+# ---------------------------------------------------------------------------
+
+def stored_sig(database='default'):
+    """{app_id: serialized app signature} of the latest stored Version."""
+    from django_evolution.models import Version
+
+    version = Version.objects.using(database).order_by('-pk')[0]
+    data = version.signature.serialize()
+
+    return OrderedDict((app_id, H._plain(app_data))
+                       for app_id, app_data in data['apps'].items())
+
+
+def evolver_install(database='default'):
+    """Bring a database up to the installed apps (tables + baseline)."""
+    from django_evolution.evolve import Evolver
+
+    evolver = Evolver(database_name=database)
+    evolver.queue_evolve_all_apps()
+    evolver.evolve()
+
+
+_SKIP_TRACE = ('SAVEPOINT', 'RELEASE SAVEPOINT', 'ROLLBACK', 'BEGIN',
+               'COMMIT', 'SELECT', 'PRAGMA FOREIGN_KEYS',
+               'PRAGMA FOREIGN_KEY_CHECK', 'PRAGMA TABLE_INFO',
+               'PRAGMA INDEX_LIST', 'PRAGMA INDEX_INFO',
+               'PRAGMA FOREIGN_KEY_LIST', 'PRAGMA TABLE_XINFO',
+               'PRAGMA INDEX_XINFO')
+
+_BOOKKEEPING_TABLES = ('django_project_version', 'django_evolution',
+                       'django_content_type', 'auth_permission',
+                       'django_migrations')
+
+
+def run_evolve_command(database='default', trace=None, **options):
+    """call_command('evolve', ...) with captured output.
+
+    Args:
+        trace: optional dict alias -> list; every statement sent to that
+            connection while the command runs is appended as (sql, params).
+
+    Returns:
+        dict: 'error' (None or class/message), 'stdout', 'stderr'.
+    """
+    from django.core.management import call_command
+    from django.core.management.base import CommandError
+    from django.db import connections
+
+    out = io.StringIO()
+    err = io.StringIO()
+    result = {'error': None}
+    options.setdefault('verbosity', 1)
+    options.setdefault('interactive', False)
+
+    if database != 'default':
+        options['database'] = database
+
+    with contextlib.ExitStack() as stack:
+        for alias, sink in (trace or {}).items():
+            def recorder(execute, sql, params, many, context, _sink=sink):
+                _sink.append((sql, params))
+                return execute(sql, params, many, context)
+
+            stack.enter_context(connections[alias].execute_wrapper(recorder))
+
+        with warnings.catch_warnings():
+            warnings.simplefilter('ignore')
+
+            try:
+                call_command('evolve', stdout=out, stderr=err, **options)
+            except CommandError as e:
+                result['error'] = {'class': 'CommandError',
+                                   'message': str(e)[:400]}
+            except Exception as e:
+                result['error'] = {'class': type(e).__name__,
+                                   'message': str(e)[:400]}
+
+    for alias in ALIASES:
+        H._reset_connection(connections[alias])
+
+    result['stdout'] = out.getvalue()
+    result['stderr'] = err.getvalue()
+
+    return result
+
+
+# ---------------------------------------------------------------------------
+# C15
+# ---------------------------------------------------------------------------
+
+# App pool; an app may only reference apps listed before it, so any
+# upward-closed set of apps can be taken out of INSTALLED_APPS.
+C15_POOL = OrderedDict([
+    ('shop', OrderedDict([
+        ('Tag', {'fields': OrderedDict([('label', _c())]),
+                 # prefix of the auto m2m table "shop_item_tags"
+                 'meta': {'db_table': 'shop_item_tag'}}),
+        ('Item', {'fields': OrderedDict([
+            ('name', _c()),
+            ('tags', ('ManyToManyField', {'to': 'Tag'})),
+        ])}),
+    ])),
+    ('shop_item', OrderedDict([
+        # label extends "shop"; table "shop_item_tagset" extends both the
+        # custom table and the m2m table of the shop app
+        ('Tagset', {'fields': OrderedDict([
+            ('item', ('ForeignKey', {'to': 'shop.Item'})),
+            ('extra', ('ManyToManyField', {'to': 'shop.Tag'})),
+        ])}),
+    ])),
+    ('crm', OrderedDict([
+        ('Customer', {'fields': OrderedDict([
+            ('fav', ('ForeignKey', {'to': 'shop.Item', 'null': True})),
+            ('friends', ('ManyToManyField', {'to': 'self'})),
+        ])}),
+        # prefix of the auto m2m table "crm_customer_friends"
+        ('Friend', {'fields': OrderedDict([('name', _c())]),
+                    'meta': {'db_table': 'crm_customer_friend'}}),
+    ])),
+    ('crmx', OrderedDict([
+        ('Note', {'fields': OrderedDict([
+            ('customer', ('ForeignKey', {'to': 'crm.Customer'})),
+            # m2m table that looks as if it belonged to the crm app
+            ('items', ('ManyToManyField', {'to': 'shop.Item',
+                                           'db_table': 'crm_note'})),
+        ])}),
+    ])),
+])
+
+C15_DEPS = {'shop': [], 'shop_item': ['shop'], 'crm': ['shop'],
+            'crmx': ['crm', 'shop']}
+
+C15_PROJECTS = [
+    ['shop', 'shop_item'],
+    ['shop', 'crm'],
+    ['shop', 'shop_item', 'crm'],
+    ['shop', 'crm', 'crmx'],
+    ['shop', 'shop_item', 'crm', 'crmx'],
+]
+
+
+def _upward_closed(labels, removed):
+    return all(label in removed
+               for label in labels
+               for dep in C15_DEPS[label]
+               if dep in removed)
+
+
+def _c15_diff_db(before, after, expect_dropped):
+    """Clauses about tables and rows.  ``expect_dropped`` = set of tables."""
+    failures = []
+    still_there = sorted(table for table in expect_dropped
+                         if table in after)
+    missing = sorted(table for table in before
+                     if table not in after and table not in expect_dropped)
+    extra = sorted(table for table in after if table not in before)
+
+    if still_there:
+        failures.append(('drops-owned-tables', {'not_dropped': still_there}))
+
+    if missing:
+        failures.append(('drops-nothing-else', {'also_dropped': missing}))
+
+    if extra:
+        failures.append(('drops-nothing-else', {'new_tables': extra}))
+
+    for table, info in before.items():
+        if table in expect_dropped or table not in after:
+            continue
+
+        for key in ('create_sql', 'index_sql', 'rows'):
+            if info[key] != after[table][key]:
+                failures.append(('other-tables-unchanged', {
+                    'table': table, 'what': key,
+                    'before': info[key], 'after': after[table][key]}))
+
+    return failures
+
+
+def _c15_diff_sig(before, after, removed_apps=(), removed_models=()):
+    """Clauses about the stored signature.
+
+    removed_apps: app ids whose whole entry must be gone.
+    removed_models: (app_id, model_name) entries that must be gone.
+    """
+    failures = []
+    removed_models = set(tuple(item) for item in removed_models)
+
+    for app_id in removed_apps:
+        if app_id in after:
+            failures.append(('sig-entries-removed', {
+                'app': app_id, 'left_behind': after[app_id]}))
+
+    for app_id, model_name in removed_models:
+        if model_name in (after.get(app_id) or {}).get('models', {}):
+            failures.append(('sig-entries-removed', {
+                'model': '%s.%s' % (app_id, model_name)}))
+
+    for app_id, app_data in before.items():
+        if app_id in removed_apps:
+            continue
+
+        if app_id not in after:
+            failures.append(('other-sig-unchanged', {
+                'app': app_id, 'problem': 'entry disappeared'}))
+            continue
+
+        expected = copy.deepcopy(app_data)
+
+        for model_app, model_name in removed_models:
+            if model_app == app_id:
+                expected.get('models', {}).pop(model_name, None)
+
+        if expected != after[app_id]:
+            failures.append(('other-sig-unchanged', {
+                'app': app_id, 'before': expected,
+                'after': after[app_id]}))
+
+    for app_id in after:
+        if app_id not in before:
+            failures.append(('other-sig-unchanged', {
+                'app': app_id, 'problem': 'entry appeared'}))
+
+    return failures
+
+
+def c15_run_purge(labels, removed, flow):
+    """Stale-app scenario.
+
+    Args:
+        labels: apps of the project (keys of C15_POOL), all installed first.
+        removed: apps then taken out of INSTALLED_APPS (upward closed).
+        flow: 'command-purge' (evolve --execute --purge), 'command-nopurge'
+            (evolve --execute), 'api-purge' (Evolver.queue_purge_old_apps),
+            'api-nopurge' (Evolver without purge tasks) or
+            ['api-purge-app', label] (Evolver.queue_purge_app(label) only).
+    """
+    from django_evolution.evolve import Evolver
+
+    psetup()
+    result = {'error': None, 'failures': [], 'nontrivial': False}
+    apps_spec = OrderedDict((label, C15_POOL[label]) for label in labels)
+    kept = [label for label in labels if label not in removed]
+    pcleanup(labels)
+
+    try:
+        with warnings.catch_warnings():
+            warnings.simplefilter('ignore')
+
+            try:
+                model_maps = build_project(apps_spec)
+                install_apps(labels)
+                evolver_install()
+                owned = owned_tables(model_maps)
+                H._insert_rows({}, _default_rows(model_maps), 'default')
+                db_before = db_snapshot()
+                sig_before = stored_sig()
+
+                # The new code base: only the kept apps exist.
+                build_project(OrderedDict(
+                    (label, C15_POOL[label]) for label in kept))
+                install_apps(kept)
+            except Exception as e:
+                result['error'] = _error_info(e, 'setup')
+                return result
+
+            purged = []
+            run_error = None
+
+            if flow in ('command-purge', 'command-nopurge'):
+                outcome = run_evolve_command(
+                    execute=True, purge=(flow == 'command-purge'))
+                run_error = outcome['error']
+
+                if run_error:
+                    run_error['stdout'] = outcome['stdout'][-300:]
+
+                if flow == 'command-purge':
+                    purged = list(removed)
+            else:
+                try:
+                    evolver = Evolver()
+                    evolver.queue_evolve_all_apps()
+
+                    if flow == 'api-purge':
+                        evolver.queue_purge_old_apps()
+                        purged = list(removed)
+                    elif isinstance(flow, (list, tuple)):
+                        evolver.queue_purge_app(flow[1])
+                        purged = [flow[1]]
+
+                    evolver.evolve()
+                except Exception as e:
+                    run_error = {'class': type(e).__name__,
+                                 'message': str(e)[:400]}
+
+            from django.db import connections
+            H._reset_connection(connections['default'])
+            db_after = db_snapshot()
+            sig_after = stored_sig()
+
+        result['nontrivial'] = True
+        expect_dropped = set(table for label in purged
+                             for tables in owned[label].values()
+                             for table in tables)
+
+        if run_error:
+            result['failures'].append((
+                'purge-runs' if purged else 'no-purge-runs', run_error))
+            # Nothing may have been touched then.
+            result['failures'] += [
+                item for item in _c15_diff_db(db_before, db_after, set())
+                if item[0] != 'drops-owned-tables']
+            result['failures'] += _c15_diff_sig(sig_before, sig_after)
+        else:
+            result['failures'] += _c15_diff_db(db_before, db_after,
+                                               expect_dropped)
+            result['failures'] += _c15_diff_sig(sig_before, sig_after,
+                                                removed_apps=purged)
+
+        if not purged:
+            result['failures'] = [
+                ('no-purge-keeps-' + ('tables' if clause in (
+                    'drops-nothing-else', 'other-tables-unchanged')
+                    else 'sig') if clause != 'no-purge-runs' else clause,
+                 observed)
+                for clause, observed in result['failures']]
+    finally:
+        pcleanup(labels)
+
+    return result
+
+
+def c15_run_delete(labels, app_label, desc, variant=None):
+    """DeleteModel / DeleteApplication through an AppMutator on real tables.
+
+    Args:
+        labels: apps of the project (keys of C15_POOL or of ``variant``).
+        app_label: app the mutation is run for.
+        desc: ['DeleteModel', name] or ['DeleteApplication'].
+        variant: optional replacement apps spec (JSON-able) used instead of
+            C15_POOL entries.
+    """
+    from django_evolution.mutators import AppMutator
+
+    psetup()
+    result = {'error': None, 'failures': [], 'nontrivial': False}
+    pool = variant or C15_POOL
+    apps_spec = OrderedDict((label, pool[label]) for label in labels)
+    pcleanup(labels)
+
+    try:
+        with warnings.catch_warnings():
+            warnings.simplefilter('ignore')
+
+            try:
+                model_maps = build_project(apps_spec)
+                project_sig = project_sig_of(model_maps)
+                create_tables(model_maps)
+                owned = owned_tables(model_maps)
+                H._insert_rows({}, _default_rows(model_maps), 'default')
+                db_before = db_snapshot()
+                sig_before = OrderedDict(
+                    (app_id, H._plain(app_data)) for app_id, app_data in
+                    project_sig.serialize()['apps'].items())
+            except Exception as e:
+                result['error'] = _error_info(e, 'setup')
+                return result
+
+            run_error = None
+            phase = 'simulate'
+
+            try:
+                app_mutator = AppMutator(
+                    app_label=app_label, project_sig=project_sig,
+                    database_state=H.scan_database_state('default'),
+                    database='default')
+                app_mutator.run_mutations([make_mutation(desc)])
+                phase = 'sql'
+                sql = app_mutator.to_sql()
+                phase = 'execute'
+                H._execute(sql, 'default', check_constraints=False)
+            except H._ExecuteError as e:
+                run_error = _error_info(e.original, phase,
+                                        failed=e.failed_statement)
+            except Exception as e:
+                run_error = _error_info(e, phase)
+
+            from django.db import connections
+            H._reset_connection(connections['default'])
+            db_after = db_snapshot()
+            sig_after = OrderedDict(
+                (app_id, H._plain(app_data)) for app_id, app_data in
+                project_sig.serialize()['apps'].items())
+
+        if run_error and run_error['class'] in REJECTIONS:
+            result['error'] = run_error
+            return result
+
+        result['nontrivial'] = True
+
+        if desc[0] == 'DeleteModel':
+            names = [desc[1]]
+        else:
+            names = list(owned[app_label])
+
+        expect_dropped = set(table for name in names
+                             for table in owned[app_label][name])
+
+        if run_error:
+            result['failures'].append(('delete-runs', run_error))
+        else:
+            result['failures'] += _c15_diff_db(db_before, db_after,
+                                               expect_dropped)
+            result['failures'] += _c15_diff_sig(
+                sig_before, sig_after,
+                removed_models=[(app_label, name) for name in names])
+    finally:
+        pcleanup(labels)
+
+    return result
+
+
+def c15_run_evolve_delete(labels, deletions):
+    """Deletion by evolution through the real ``evolve --execute``.
+
+    Args:
+        deletions: {app_label: ['DeleteModel', name] | ['DeleteApplication']}
+            The new code base lacks the deleted models; each named app gets
+            an evolution ``del`` holding the mutation.
+    """
+    psetup()
+    result = {'error': None, 'failures': [], 'nontrivial': False}
+    apps_spec = OrderedDict((label, C15_POOL[label]) for label in labels)
+    pcleanup(labels)
+
+    try:
+        with warnings.catch_warnings():
+            warnings.simplefilter('ignore')
+
+            try:
+                model_maps = build_project(apps_spec)
+                install_apps(labels)
+                evolver_install()
+                owned = owned_tables(model_maps)
+                H._insert_rows({}, _default_rows(model_maps), 'default')
+                db_before = db_snapshot()
+                sig_before = stored_sig()
+
+                new_spec = OrderedDict()
+                removed_models = []
+
+                for label in labels:
+                    models_spec = OrderedDict(C15_POOL[label])
+                    desc = deletions.get(label)
+
+                    if desc:
+                        names = ([desc[1]] if desc[0] == 'DeleteModel'
+                                 else list(models_spec))
+
+                        for name in names:
+                            del models_spec[name]
+                            removed_models.append((label, name))
+
+                        set_evolutions(label,
+                                       [('del', [make_mutation(desc)])])
+
+                    new_spec[label] = models_spec
+
+                build_project(new_spec)
+                install_apps(labels)
+            except Exception as e:
+                result['error'] = _error_info(e, 'setup')
+                return result
+
+            outcome = run_evolve_command(execute=True)
+            db_after = db_snapshot()
+            sig_after = stored_sig()
+
+        result['nontrivial'] = True
+        expect_dropped = set(table for label, name in removed_models
+                             for table in owned[label][name])
+
+        if outcome['error']:
+            outcome['error']['stdout'] = outcome['stdout'][-300:]
+            result['failures'].append(('delete-runs', outcome['error']))
+        else:
+            result['failures'] += _c15_diff_db(db_before, db_after,
+                                               expect_dropped)
+            result['failures'] += _c15_diff_sig(
+                sig_before, sig_after, removed_models=removed_models)
+    finally:
+        pcleanup(labels)
+
+    return result
+
+
+C15_THROUGH_VARIANT = OrderedDict([
+    ('lib', OrderedDict([
+        ('Book', {'fields': OrderedDict([
+            ('title', _c()),
+            ('authors', ('ManyToManyField', {'to': 'Author',
+                                             'through': 'lib.Credit'})),
+        ])}),
+        ('Author', {'fields': OrderedDict([('name', _c())])}),
+        ('Credit', {'fields': OrderedDict([
+            ('book', ('ForeignKey', {'to': 'Book'})),
+            ('author', ('ForeignKey', {'to': 'Author'})),
+        ])}),
+    ])),
+    ('libx', OrderedDict([
+        ('Loan', {'fields': OrderedDict([
+            ('book', ('ForeignKey', {'to': 'lib.Book'})),
+        ]), 'meta': {'db_table': 'lib_book_loan'}}),
+    ])),
+])
+
+
+def _reversed_pool(pool):
+    return OrderedDict(
+        (label, OrderedDict(reversed(list(models_spec.items()))))
+        for label, models_spec in pool.items())
+
+
+def _c15_scenarios(tier, seed):
+    scenarios = []
+
+    for labels in C15_PROJECTS:
+        subsets = []
+
+        for size in range(1, len(labels) + 1):
+            for removed in itertools.combinations(labels, size):
+                if _upward_closed(labels, removed):
+                    subsets.append(list(removed))
+
+        for removed in subsets:
+            flows = ['command-purge', 'api-purge', 'command-nopurge']
+
+            if tier != 'quick':
+                flows.append('api-nopurge')
+
+            if len(removed) > 1 and (tier != 'quick' or len(labels) == 4):
+                flows += [['api-purge-app', label] for label in removed]
+
+            for flow in flows:
+                scenarios.append(('purge', labels, removed, flow))
+
+    for labels in C15_PROJECTS:
+        if tier == 'quick' and len(labels) not in (2, 4):
+            continue
+
+        for variant_name in (None, 'reversed'):
+            for label in labels:
+                descs = [['DeleteApplication']] + [
+                    ['DeleteModel', name] for name in C15_POOL[label]]
+
+                for desc in descs:
+                    scenarios.append(('delete', labels, label, desc,
+                                      variant_name))
+
+    for label in C15_THROUGH_VARIANT:
+        descs = [['DeleteApplication']] + [
+            ['DeleteModel', name] for name in C15_THROUGH_VARIANT[label]]
+
+        for desc in descs:
+            scenarios.append(('delete', list(C15_THROUGH_VARIANT), label,
+                              desc, 'through'))
+
+    # Deletion by evolution through `evolve --execute`: only models / apps
+    # nothing in the remaining code refers to.
+    evolve_deletes = [
+        (['shop', 'shop_item', 'crm', 'crmx'],
+         {'crmx': ['DeleteModel', 'Note']}),
+        (['shop', 'shop_item', 'crm', 'crmx'],
+         {'shop_item': ['DeleteApplication']}),
+        (['shop', 'crm'], {'crm': ['DeleteModel', 'Friend']}),
+    ]
+
+    if tier != 'quick':
+        evolve_deletes += [
+            (['shop', 'shop_item', 'crm', 'crmx'],
+             {'crmx': ['DeleteApplication']}),
+            (['shop', 'shop_item', 'crm', 'crmx'],
+             {'crmx': ['DeleteApplication'], 'crm': ['DeleteApplication']}),
+            (['shop', 'shop_item', 'crm', 'crmx'],
+             {'crmx': ['DeleteModel', 'Note'],
+              'shop_item': ['DeleteModel', 'Tagset'],
+              'crm': ['DeleteModel', 'Friend']}),
+            (['shop', 'shop_item'], {'shop_item': ['DeleteModel', 'Tagset']}),
+            (['shop', 'shop_item'], {'shop_item': ['DeleteApplication'],
+                                     'shop': ['DeleteApplication']}),
+            (['shop', 'crm', 'crmx'], {'crm': ['DeleteModel', 'Friend'],
+                                       'crmx': ['DeleteApplication']}),
+        ]
+
+    for labels, deletions in evolve_deletes:
+        scenarios.append(('evolve-delete', labels, deletions))
+
+    return scenarios
+
+
+def _c15_variant(name):
+    if name == 'reversed':
+        return _reversed_pool(C15_POOL)
+
+    if name == 'through':
+        return C15_THROUGH_VARIANT
+
+    return None
+
+
+def _c15_dispatch(scenario):
+    kind = scenario[0]
+
+    if kind == 'purge':
+        return c15_run_purge(scenario[1], scenario[2], scenario[3])
+
+    if kind == 'delete':
+        return c15_run_delete(scenario[1], scenario[2], scenario[3],
+                              variant=_c15_variant(scenario[4]))
+
+    return c15_run_evolve_delete(scenario[1], scenario[2])
+
+
+def _c15_describe(scenario):
+    kind = scenario[0]
+
+    if kind == 'purge':
+        return {'kind': kind, 'apps': scenario[1], 'removed': scenario[2],
+                'flow': scenario[3]}
+
+    if kind == 'delete':
+        return {'kind': kind, 'apps': scenario[1], 'app': scenario[2],
+                'mutation': scenario[3], 'variant': scenario[4]}
+
+    return {'kind': kind, 'apps': scenario[1], 'deletions': scenario[2]}
+
+
+def suite_C15(tier='quick', seed=0):
+    psetup()
+    scenarios = _c15_scenarios(tier, seed)
+    rule = (
+        'Projects = the 5 dependency-closed selections of 2-4 apps from '
+        'C15_POOL (shop, shop_item, crm, crmx: cross-app FK and M2M, self '
+        'M2M, a custom M2M db_table, custom db_table names that are '
+        'prefixes of auto M2M table names, an app label that is a prefix of '
+        'another). (1) purge: every project is installed through the real '
+        'Evolver, rows are inserted, then EVERY upward-closed non-empty set '
+        'of apps is taken out of the app registry and the upgrade is run '
+        'as `evolve --execute --purge`, as Evolver.queue_purge_old_apps(), '
+        'as `evolve --execute` without purge%s and (quick: 4-app project '
+        'only) as Evolver.queue_purge_app() for each single stale app; '
+        '(2) delete: every DeleteModel/DeleteApplication of every app of '
+        '%s, in declared and reversed model order plus a project with an '
+        'explicit through model, through an AppMutator on real tables; '
+        '(3) %d deletions by evolution through `evolve --execute`. '
+        'Exhaustive over that scope (no sampling). Every scenario that '
+        'gets as far as the purge/delete request is non-trivial.'
+        % (', as Evolver without purge tasks' if tier != 'quick' else '',
+           'the 2- and 4-app projects' if tier == 'quick'
+           else 'all projects', 3 if tier == 'quick' else 9))
+
+    return _run_suite('C15', scenarios, _c15_dispatch, _c15_describe, tier,
+                      True, rule)
+
+
+def replay_C15(inputs):
+    kind = inputs['kind']
+
+    if kind == 'purge':
+        flow = inputs['flow']
+        outcome = c15_run_purge(inputs['apps'], inputs['removed'],
+                                tuple(flow) if isinstance(flow, list)
+                                else flow)
+    elif kind == 'delete':
+        outcome = c15_run_delete(inputs['apps'], inputs['app'],
+                                 inputs['mutation'],
+                                 variant=_c15_variant(inputs.get('variant')))
+    else:
+        outcome = c15_run_evolve_delete(inputs['apps'], inputs['deletions'])
+
+    return {'reproduced': bool(outcome['failures']),
+            'error': outcome['error'],
+            'failures': _json(outcome['failures'])}
+
+
+# ---------------------------------------------------------------------------
+# Spec transformer (derives the target models of an evolution)
+# ---------------------------------------------------------------------------
+
+def apply_descs_to_spec(models_spec, descs, label=None):
+    """Return the models spec of ONE app after the mutations ``descs``.
+
+    Supports the vocabulary of :func:`make_mutation` except RenameAppLabel.
+    Relation targets inside the same app are renamed along with RenameModel.
+    """
+    spec = copy.deepcopy(models_spec)
+
+    def rename_key(mapping, old, new):
+        return OrderedDict((new if key == old else key, value)
+                           for key, value in mapping.items())
+
+    for desc in descs:
+        kind = desc[0]
+
+        if kind == 'AddField':
+            attrs = dict(desc[4] if len(desc) > 4 else {})
+            attrs.pop('initial', None)
+            related = attrs.pop('related_model', None)
+
+            if related:
+                attrs['to'] = related
+
+            spec[desc[1]].setdefault('fields', OrderedDict())[desc[2]] = (
+                desc[3], attrs)
+        elif kind == 'DeleteField':
+            del spec[desc[1]]['fields'][desc[2]]
+            meta = spec[desc[1]].get('meta') or {}
+
+            if 'unique_together' in meta:
+                meta['unique_together'] = [
+                    item for item in (
+                        [name for name in entry if name != desc[2]]
+                        for entry in meta['unique_together'])
+                    if item]
+        elif kind == 'RenameField':
+            attrs = dict(desc[4] if len(desc) > 4 else {})
+            fields = spec[desc[1]]['fields']
+            type_name, kwargs = fields[desc[2]][0], dict(
+                fields[desc[2]][1] if len(fields[desc[2]]) > 1 else {})
+
+            if type_name == 'ManyToManyField':
+                kwargs.pop('db_table', None)
+
+                if attrs.get('db_table'):
+                    kwargs['db_table'] = attrs['db_table']
+            else:
+                kwargs.pop('db_column', None)
+
+                if attrs.get('db_column'):
+                    kwargs['db_column'] = attrs['db_column']
+
+            fields[desc[2]] = (type_name, kwargs)
+            spec[desc[1]]['fields'] = rename_key(fields, desc[2], desc[3])
+            meta = spec[desc[1]].get('meta') or {}
+
+            for key in ('unique_together', 'index_together'):
+                if key in meta:
+                    meta[key] = [[desc[3] if name == desc[2] else name
+                                  for name in entry] for entry in meta[key]]
+        elif kind == 'ChangeField':
+            attrs = dict(desc[3] if len(desc) > 3 else {})
+            attrs.pop('initial', None)
+            fields = spec[desc[1]]['fields']
+            type_name, kwargs = fields[desc[2]][0], dict(
+                fields[desc[2]][1] if len(fields[desc[2]]) > 1 else {})
+            kwargs.update(attrs)
+            fields[desc[2]] = (type_name, kwargs)
+        elif kind == 'ChangeMeta':
+            spec[desc[1]].setdefault('meta', {})[desc[2]] = copy.deepcopy(
+                desc[3])
+        elif kind == 'RenameModel':
+            attrs = dict(desc[3] if len(desc) > 3 else {})
+            spec = rename_key(spec, desc[1], desc[2])
+            spec[desc[2]].setdefault('meta', {})['db_table'] = \
+                attrs.get('db_table')
+
+            for model_spec in spec.values():
+                for name, info in list((model_spec.get('fields')
+                                        or {}).items()):
+                    kwargs = info[1] if len(info) > 1 else {}
+
+                    if kwargs.get('to') in (desc[1], '%s.%s' % (label,
+                                                                desc[1])):
+                        kwargs = dict(kwargs, to=desc[2])
+                        model_spec['fields'][name] = (info[0], kwargs)
+        elif kind == 'DeleteModel':
+            del spec[desc[1]]
+        elif kind == 'DeleteApplication':
+            spec = OrderedDict()
+        else:
+            raise ValueError('cannot apply %r to a spec' % (desc,))
+
+    return spec
+
+
+def trace_writes(statements):
+    """Filter an execute_wrapper trace down to statements that change data
+    or schema (reads, savepoints and FK pragmas are dropped)."""
+    result = []
+
+    for sql, params in statements:
+        head = sql.strip().upper()
+
+        if head.startswith(_SKIP_TRACE) or head.startswith('EXPLAIN'):
+            continue
+
+        result.append((sql.strip(), params))
+
+    return result
+
+
+def is_bookkeeping(sql):
+    head = sql.strip().upper()
+
+    for table in _BOOKKEEPING_TABLES:
+        for verb in ('INSERT INTO', 'UPDATE', 'DELETE FROM'):
+            if head.startswith('%s "%s"' % (verb, table.upper())):
+                return True
+
+    return False
+
+
+@contextlib.contextmanager
+def routers(router_objects):
+    """The project's ``override_db_routers`` (base_test_case.py)."""
+    from django.db import router
+    from django.db.utils import ConnectionRouter
+    from django.test.utils import override_settings
+
+    try:
+        with override_settings(DATABASE_ROUTERS=list(router_objects)):
+            router.routers = ConnectionRouter().routers
+            yield
+    finally:
+        router.routers = ConnectionRouter().routers
+
+
+class ModelRouter(object):
+    """Routes the models of the synthetic apps by model name.
+
+    ``mapping`` = {app_label: {ModelName: alias}}; auto-created many-to-many
+    models follow their owner.  Everything else is left to Django's default.
+    """
+
+    def __init__(self, mapping):
+        self.mapping = mapping
+
+    def _db(self, model):
+        meta = model._meta
+
+        if meta.app_label not in self.mapping:
+            return None
+
+        owner = meta.auto_created or model
+
+        return self.mapping[meta.app_label].get(owner._meta.object_name)
+
+    def db_for_read(self, model, **hints):
+        return self._db(model)
+
+    db_for_write = db_for_read
+
+    def allow_migrate(self, db, app_label, model_name=None, **hints):
+        model = hints.get('model')
+
+        if model is None or app_label not in self.mapping:
+            return None
+
+        target = self._db(model)
+
+        if target is None:
+            return None
+
+        return db == target
+
+
+# ---------------------------------------------------------------------------
+# C16
+# ---------------------------------------------------------------------------
+
+C16_APP = 'multi'
+
+C16_MODELS = OrderedDict([
+    ('Alpha', {'fields': OrderedDict([
+        ('name', _c()), ('num', ('IntegerField', {'null': True}))])}),
+    ('Beta', {'fields': OrderedDict([
+        ('title', _c()), ('flag', ('IntegerField', {'default': 0}))])}),
+    ('Gamma', {'fields': OrderedDict([
+        ('code', _c()), ('size', ('IntegerField', {'null': True}))])}),
+])
+
+
+def c16_model_mutations(model_name):
+    """The mutation alphabet for one model of C16_MODELS."""
+    fields = list(C16_MODELS[model_name]['fields'])
+    first, second = fields[0], fields[1]
+
+    return [
+        ['AddField', model_name, 'extra', 'IntegerField', {'null': True}],
+        ['AddField', model_name, 'note', 'CharField',
+         {'max_length': 20, 'initial': 'x'}],
+        ['DeleteField', model_name, second],
+        ['RenameField', model_name, second, second + '_r', {}],
+        ['ChangeField', model_name, first, {'max_length': 30}],
+        ['ChangeMeta', model_name, 'unique_together', [[first, second]]],
+        # The table keeps its name: through the Evolver a renamed model
+        # with a NEW table name is first created as a "new model" and the
+        # rename then collides (unrelated to routing), so the control run
+        # rejects that variant.
+        ['RenameModel', model_name, model_name + 'X',
+         {'db_table': '%s_%s' % (C16_APP, model_name.lower())}],
+        ['DeleteModel', model_name],
+    ]
+
+
+def _schema_essentials(snapshot_table):
+    return {'columns': snapshot_table['columns'],
+            'index_sql': sorted(snapshot_table['index_sql'])}
+
+
+def _tables_by_model(model_map):
+    return owned_tables({C16_APP: model_map})[C16_APP]
+
+
+def _route_after(routing, evolutions):
+    routing = dict(routing)
+
+    for _label, descs in evolutions:
+        for desc in descs:
+            if desc[0] == 'RenameModel':
+                routing[desc[2]] = routing.pop(desc[1])
+            elif desc[0] == 'DeleteModel':
+                routing.pop(desc[1], None)
+            elif desc[0] == 'DeleteApplication':
+                routing.clear()
+
+    return routing
+
+
+def _upgrade_target(models_spec, evolutions, label):
+    current = models_spec
+
+    for _evo_label, descs in evolutions:
+        current = apply_descs_to_spec(current, descs, label)
+
+    return current
+
+
+_c16_control_cache = {}
+
+
+def _c16_control(models_spec, evolutions):
+    """Single-database control run: the same upgrade with every model on
+    'default' and no router.  Tells whether the generated upgrade is valid
+    at all and what each model's tables / signature entry must look like."""
+    key = json.dumps([_json(models_spec), evolutions], sort_keys=True)
+
+    if key in _c16_control_cache:
+        return _c16_control_cache[key]
+
+    result = {'error': None}
+    pcleanup([C16_APP])
+
+    try:
+        with warnings.catch_warnings():
+            warnings.simplefilter('ignore')
+            build_project({C16_APP: models_spec})
+            install_apps([C16_APP])
+            evolver_install('default')
+            target = _upgrade_target(models_spec, evolutions, C16_APP)
+            maps = build_project({C16_APP: target})
+            set_evolutions(C16_APP, [
+                (evo_label, [make_mutation(desc) for desc in descs])
+                for evo_label, descs in evolutions])
+            install_apps([C16_APP])
+            outcome = run_evolve_command(execute=True)
+
+            if outcome['error']:
+                result['error'] = dict(outcome['error'],
+                                       stdout=outcome['stdout'][-300:])
+            else:
+                snapshot = db_snapshot('default')
+                result['tables_by_model'] = _tables_by_model(maps[C16_APP])
+                result['schema'] = dict(
+                    (table, _schema_essentials(info))
+                    for table, info in snapshot.items())
+                result['sig_models'] = (stored_sig('default').get(C16_APP)
+                                        or {}).get('models', {})
+    except Exception as e:
+        result['error'] = _error_info(e, 'control')
+    finally:
+        pcleanup([C16_APP])
+
+    _c16_control_cache[key] = result
+
+    return result
+
+
+def _db_state(alias):
+    from django_evolution.models import Evolution, Version
+
+    return {
+        'tables': db_snapshot(alias),
+        'sig': stored_sig(alias),
+        'versions': Version.objects.using(alias).count(),
+        'evolutions': Evolution.objects.using(alias).count(),
+    }
+
+
+def c16_run(model_names, routing, evolutions, order):
+    """One C16 scenario.
+
+    Args:
+        model_names: models of C16_MODELS in the app.
+        routing: {ModelName: alias} for every model.
+        evolutions: [[label, [descs]], ...] for the app.
+        order: the order in which the two databases are evolved.
+    """
+    psetup()
+    result = {'error': None, 'failures': [], 'nontrivial': False}
+    models_spec = OrderedDict((name, C16_MODELS[name])
+                              for name in model_names)
+    control = _c16_control(models_spec, evolutions)
+
+    if control['error']:
+        result['error'] = dict(control['error'], phase='control')
+        return result
+
+    routing_after = _route_after(routing, evolutions)
+    router_obj = ModelRouter({C16_APP: dict(routing, **routing_after)})
+    pcleanup([C16_APP])
+
+    try:
+        with warnings.catch_warnings(), routers([router_obj]):
+            warnings.simplefilter('ignore')
+
+            # -- install --------------------------------------------------
+            try:
+                maps = build_project({C16_APP: models_spec})
+                install_apps([C16_APP])
+
+                for alias in order:
+                    evolver_install(alias)
+
+                start_tables = _tables_by_model(maps[C16_APP])
+                rows = _default_rows(maps)
+            except Exception as e:
+                result['error'] = _error_info(e, 'install')
+                return result
+
+            for alias in ALIASES:
+                expected = sorted(
+                    table for name, tables in start_tables.items()
+                    if routing[name] == alias for table in tables)
+                actual = sorted(db_snapshot(alias))
+
+                if actual != expected:
+                    result['failures'].append(('install-routed', {
+                        'database': alias, 'expected_tables': expected,
+                        'tables': actual}))
+
+                sig_models = sorted((stored_sig(alias).get(C16_APP) or {})
+                                    .get('models', {}))
+                expected_models = sorted(name for name in model_names
+                                         if routing[name] == alias)
+
+                if sig_models != expected_models:
+                    result['failures'].append(('install-sig-routed', {
+                        'database': alias, 'expected': expected_models,
+                        'recorded': sig_models}))
+
+                H._insert_rows({}, OrderedDict(
+                    (table, table_rows) for table, table_rows in
+                    rows.items() if table in actual), alias)
+
+            if result['failures']:
+                return result
+
+            # -- upgrade --------------------------------------------------
+            target = _upgrade_target(models_spec, evolutions, C16_APP)
+            build_project({C16_APP: target})
+            set_evolutions(C16_APP, [
+                (evo_label, [make_mutation(desc) for desc in descs])
+                for evo_label, descs in evolutions])
+            install_apps([C16_APP])
+
+            touched = set()
+
+            for _label, descs in evolutions:
+                for desc in descs:
+                    if desc[0] == 'DeleteApplication':
+                        touched.update(routing.values())
+                    else:
+                        name = desc[1]
+                        # follow renames back to the start name
+                        for back in evolutions:
+                            for other in back[1]:
+                                if (other[0] == 'RenameModel' and
+                                    other[2] == name):
+                                    name = other[1]
+
+                        touched.add(routing.get(name))
+
+            result['nontrivial'] = len(touched - set([None])) == 2
+
+            for alias in order:
+                other = [name for name in ALIASES if name != alias][0]
+                other_before = _db_state(other)
+                trace = {other: []}
+                outcome = run_evolve_command(database=alias, execute=True,
+                                             trace=trace)
+                other_after = _db_state(other)
+
+                if outcome['error']:
+                    result['failures'].append(('evolve-succeeds', {
+                        'database': alias, 'error': outcome['error'],
+                        'stdout': outcome['stdout'][-300:]}))
+
+                writes = trace_writes(trace[other])
+
+                if writes:
+                    result['failures'].append(('other-db-untouched', {
+                        'evolved': alias, 'other': other,
+                        'statements_sent_to_other': [
+                            sql[:160] for sql, _params in writes[:5]]}))
+                elif other_after != other_before:
+                    result['failures'].append(('other-db-untouched', {
+                        'evolved': alias, 'other': other,
+                        'changed': [key for key in other_before
+                                    if other_before[key] !=
+                                    other_after[key]]}))
+
+                if outcome['error']:
+                    continue
+
+                # This database must now hold exactly the target models the
+                # router allows on it, shaped as in the control run.
+                expected_tables = OrderedDict(
+                    (table, control['schema'][table])
+                    for name, tables in control['tables_by_model'].items()
+                    if routing_after.get(name) == alias
+                    for table in tables)
+                snapshot = db_snapshot(alias)
+                actual_tables = dict((table, _schema_essentials(info))
+                                     for table, info in snapshot.items())
+
+                if actual_tables != dict(expected_tables):
+                    result['failures'].append(('schema-matches-routing', {
+                        'database': alias,
+                        'expected': expected_tables,
+                        'actual': actual_tables}))
+
+                expected_sig = dict(
+                    (name, data)
+                    for name, data in control['sig_models'].items()
+                    if routing_after.get(name) == alias)
+                actual_sig = (stored_sig(alias).get(C16_APP) or {}).get(
+                    'models', {})
+
+                if actual_sig != expected_sig:
+                    result['failures'].append(('sig-matches-routing', {
+                        'database': alias,
+                        'expected_models': sorted(expected_sig),
+                        'recorded_models': sorted(actual_sig),
+                        'differing': sorted(
+                            name for name in set(expected_sig) &
+                            set(actual_sig)
+                            if expected_sig[name] != actual_sig[name])}))
+    finally:
+        pcleanup([C16_APP])
+
+    return result
+
+
+def _c16_scenarios(tier, seed):
+    rng = random.Random(seed)
+    scenarios = []
+
+    def add(model_names, evolutions_variants, assignments, orders):
+        for routing in assignments:
+            for evolutions in evolutions_variants:
+                for order in orders:
+                    scenarios.append((list(model_names), routing,
+                                      evolutions, list(order)))
+
+    two = ['Alpha', 'Beta']
+    assignments2 = [dict(zip(two, combo)) for combo in
+                    itertools.product(ALIASES, repeat=2)]
+    pairs = [(first, second)
+             for first in c16_model_mutations('Alpha')
+             for second in c16_model_mutations('Beta')]
+    orders = [ALIASES, tuple(reversed(ALIASES))]
+
+    if tier == 'quick':
+        # every mutation kind appears on each side at least once
+        kinds = len(c16_model_mutations('Alpha'))
+        chosen = [pairs[i * kinds + (i + 3) % kinds] for i in range(kinds)]
+        chosen += rng.sample([pair for pair in pairs if pair not in chosen],
+                             2)
+        split = [assignments2[1], assignments2[2]]   # the two real splits
+
+        for i, (first, second) in enumerate(chosen):
+            variants = [[['e1', [first, second]]]] if i % 2 == 0 else \
+                [[['e1', [second]], ['e2', [first]]]]
+            add(two, variants, split, [orders[i % 2]])
+
+        add(two, [[['e1', [['DeleteApplication']]]]], split, [orders[0]])
+        # same-side assignments (trivial controls)
+        add(two, [[['e1', list(chosen[0])]]],
+            [assignments2[0], assignments2[3]], [orders[0]])
+        exhaustive = False
+    else:
+        for first, second in pairs:
+            add(two, [[['e1', [first, second]]],
+                      [['e1', [second]], ['e2', [first]]]],
+                [assignments2[1], assignments2[2]], orders)
+
+        for first, second in rng.sample(pairs, 12):
+            add(two, [[['e1', [first, second]]]],
+                [assignments2[0], assignments2[3]], [orders[0]])
+
+        add(two, [[['e1', [['DeleteApplication']]]]], assignments2, orders)
+
+        three = ['Alpha', 'Beta', 'Gamma']
+        assignments3 = [dict(zip(three, combo)) for combo in
+                        itertools.product(ALIASES, repeat=3)]
+        triples = [(a, b, c)
+                   for a in c16_model_mutations('Alpha')
+                   for b in c16_model_mutations('Beta')
+                   for c in c16_model_mutations('Gamma')]
+
+        for a, b, c in rng.sample(triples, 40):
+            add(three, [[['e1', [a, b]], ['e2', [c]]]],
+                rng.sample(assignments3[1:-1], 3), [rng.choice(orders)])
+
+        exhaustive = False
+
+    return scenarios, exhaustive
+
+
+def suite_C16(tier='quick', seed=0):
+    psetup()
+    scenarios, exhaustive = _c16_scenarios(tier, seed)
+
+    def describe(scenario):
+        return {'models': scenario[0], 'routing': scenario[1],
+                'evolutions': scenario[2], 'order': scenario[3]}
+
+    def runner(scenario):
+        return c16_run(*scenario)
+
+    rule = (
+        'One synthetic app "multi" with the models Alpha/Beta(/Gamma) of '
+        'C16_MODELS, a router (ModelRouter) sending each model to '
+        '"default" or "db_multi"; both databases are installed through the '
+        'real Evolver, rows inserted, then the code base moves to the '
+        'target models and `evolve --execute --database X` is run for each '
+        'database in turn. Mutation alphabet per model: AddField (null / '
+        'with initial), DeleteField, RenameField, ChangeField(max_length), '
+        'ChangeMeta(unique_together), RenameModel(same table), DeleteModel; '
+        'plus DeleteApplication. %s Every generated upgrade is first run '
+        'on a single database without router (control); scenarios whose '
+        'control run is rejected are skipped, and the control provides the '
+        'expected per-model tables and signature entries. Non-trivial = '
+        'the evolution(s) name models on both databases.'
+        % ('quick: 10 (Alpha-mutation, Beta-mutation) pairs covering every '
+           'mutation kind on each side, in one evolution or two, x the two '
+           'real splits of 2 models, plus DeleteApplication and same-side '
+           'controls.' if tier == 'quick' else
+           'thorough: ALL 64 pairs x {one evolution, two evolutions} x the '
+           'two real splits x both database orders, DeleteApplication for '
+           'all 4 assignments, 12 same-side controls and 40 random 3-model '
+           'scenarios (3 of the 6 real splits each).'))
+
+    return _run_suite('C16', scenarios, runner, describe, tier, exhaustive,
+                      rule)
+
+
+def replay_C16(inputs):
+    outcome = c16_run(inputs['models'], inputs['routing'],
+                      inputs['evolutions'], inputs['order'])
+    return {'reproduced': bool(outcome['failures']),
+            'error': outcome['error'],
+            'failures': _json(outcome['failures'])}
+
+
+# ---------------------------------------------------------------------------
+# Known findings + CLI
+# ---------------------------------------------------------------------------
+
+def _has_step(inputs, kind, attr=None):
+    for _label, desc in inputs.get('steps', []):
+        if desc[0] == kind:
+            if attr is None:
+                return True
+
+            if (desc[-1] if isinstance(desc[-1], dict) else {}).get(attr):
+                return True
+
+    return False
+
+
+def _c11_m2m_owner_rename(inputs, observed):
+    steps = inputs.get('steps', [])
+
+    if len(steps) != 1 or steps[0][1][0] != 'RenameModel':
+        return False
+
+    label, desc = steps[0]
+    model = C11_FAMILIES[inputs['family']].get(label, {}).get(desc[1])
+
+    return bool(model) and any(
+        info[0] == 'ManyToManyField'
+        for info in model['fields'].values())
+
+
+def _c15_pool_for(inputs):
+    return _c15_variant(inputs.get('variant')) or C15_POOL
+
+
+def _c15_backward_relation(pool, ordered_models):
+    """True if, deleting (label, model) entries in the given order, some
+    model has a relation to a model deleted before it."""
+    gone = set()
+
+    for label, name in ordered_models:
+        for info in pool[label][name]['fields'].values():
+            kwargs = info[1] if len(info) > 1 else {}
+            to = kwargs.get('to')
+
+            if not to or to == 'self':
+                continue
+
+            target = tuple(to.split('.')) if '.' in to else (label, to)
+
+            if target in gone:
+                return True
+
+        gone.add((label, name))
+
+    return False
+
+
+def _c15_known_backward(inputs, observed):
+    message = (observed or {}).get('message', '')
+
+    if 'Unable to find a model signature' not in message:
+        return False
+
+    pool = _c15_pool_for(inputs)
+
+    if inputs['kind'] == 'purge':
+        flow = inputs['flow']
+
+        if flow in ('command-purge', 'api-purge'):
+            purged = [label for label in inputs['apps']
+                      if label in inputs['removed']]
+        elif isinstance(flow, (list, tuple)):
+            purged = [flow[1]]
+        else:
+            return False
+
+        order = [(label, name) for label in purged for name in pool[label]]
+    elif inputs['kind'] == 'delete':
+        if inputs['mutation'][0] != 'DeleteApplication':
+            return False
+
+        order = [(inputs['app'], name) for name in pool[inputs['app']]]
+    else:
+        order = []
+
+        for label in inputs['apps']:
+            desc = inputs['deletions'].get(label)
+
+            if desc and desc[0] == 'DeleteApplication':
+                order += [(label, name) for name in pool[label]]
+
+    return _c15_backward_relation(pool, order)
+
+
+def _c15_known_through(inputs, observed):
+    if inputs['kind'] != 'delete' or inputs.get('variant') != 'through':
+        return False
+
+    if 'no such table' not in (observed or {}).get('message', ''):
+        return False
+
+    pool = _c15_pool_for(inputs)
+    names = ([inputs['mutation'][1]]
+             if inputs['mutation'][0] == 'DeleteModel'
+             else list(pool[inputs['app']]))
+
+    return any('through' in (info[1] if len(info) > 1 else {})
+               for name in names
+               for info in pool[inputs['app']][name]['fields'].values())
+
+
+KNOWN = [
+    {
+        'property': 'C15',
+        'clause': 'purge-runs',
+        'match': 'flow == command-purge (evolve --execute --purge) with at '
+                 'least one stale app that has tables; error is the '
+                 '"cannot resolve automatically" CommandError',
+        'predicate': lambda inputs, observed: (
+            inputs['kind'] == 'purge' and
+            inputs['flow'] == 'command-purge' and
+            'cannot resolve automatically' in observed.get('message', '')),
+        'what': 'DeleteApplication.simulate removes the model signatures '
+                'but never the (now empty) AppSignature, and the command '
+                'checks Diff.is_empty(ignore_apps=False) when --purge is '
+                'given, so the purged app still counts as "deleted" and '
+                '`evolve --purge --execute` always aborts before running '
+                'any SQL.',
+        'inputs': {'kind': 'purge', 'apps': ['shop', 'crm'],
+                   'removed': ['crm'], 'flow': 'command-purge'},
+    },
+    {
+        'property': 'C15',
+        'clause': 'purge-runs',
+        'match': 'purging (or DeleteApplication of) models in signature '
+                 'order where a model has a FK/M2M to a model deleted '
+                 'before it; error "Unable to find a model signature"',
+        'predicate': _c15_known_backward,
+        'what': 'DeleteApplication.mutate deletes the models one by one and '
+                'each DeleteModel is simulated immediately; building the '
+                'MockModel of a later model then fails with '
+                'MissingSignatureError because create_field() requires the '
+                'signature of the relation target that was just removed.',
+        'inputs': {'kind': 'purge', 'apps': ['shop', 'crm', 'crmx'],
+                   'removed': ['crm', 'crmx'], 'flow': 'api-purge'},
+    },
+    {
+        'property': 'C15',
+        'clause': 'delete-runs',
+        'match': 'DeleteApplication of an app in which a model has a '
+                 'FK/M2M to a model listed before it in the app signature',
+        'predicate': _c15_known_backward,
+        'what': 'same root cause as the purge-runs/backward-relation entry '
+                '(DeleteApplication.mutate + immediate simulation).',
+        'inputs': {'kind': 'delete', 'apps': ['shop', 'shop_item'],
+                   'app': 'shop', 'mutation': ['DeleteApplication'],
+                   'variant': None},
+    },
+    {
+        'property': 'C15',
+        'clause': 'delete-runs',
+        'match': 'DeleteModel/DeleteApplication covering a model whose '
+                 'ManyToManyField uses an explicit through model',
+        'predicate': _c15_known_through,
+        'what': 'field signatures do not record `through`, so '
+                'DeleteModel.mutate treats the relation as auto-created and '
+                'emits DROP TABLE for "<table>_<field>", a table that never '
+                'existed; the whole deletion fails with "no such table".',
+        'inputs': {'kind': 'delete', 'apps': ['lib', 'libx'], 'app': 'lib',
+                   'mutation': ['DeleteModel', 'Book'],
+                   'variant': 'through'},
+    },
+    {
+        'property': 'C15',
+        'clause': 'sig-entries-removed',
+        'match': 'any purge that runs (Evolver.queue_purge_old_apps / '
+                 'queue_purge_app): an empty app entry stays behind',
+        'predicate': lambda inputs, observed: (
+            inputs['kind'] == 'purge' and
+            isinstance(observed.get('left_behind'), dict) and
+            not observed['left_behind'].get('models')),
+        'what': 'DeleteApplication.simulate leaves the emptied AppSignature '
+                'in the project signature, so the stored signature keeps an '
+                'entry {"models": {}} for the purged app and every later '
+                'run reports the app as deleted/purgeable again.',
+        'inputs': {'kind': 'purge', 'apps': ['shop', 'crm'],
+                   'removed': ['crm'], 'flow': 'api-purge'},
+    },
+    {
+        'property': 'C11',
+        'clause': 'ref-exists',
+        'match': 'some step is RenameAppLabel(..., model_names=<proper '
+                 'subset of the app\'s models>)',
+        'predicate': lambda inputs, observed: _has_step(
+            inputs, 'RenameAppLabel', 'model_names'),
+        'what': 'RenameAppLabel.simulate moves only the models listed in '
+                'model_names to the new label but then rewrites EVERY '
+                'related_model that starts with the old label, so relations '
+                'to models that stayed behind now name "<new>.<Model>", '
+                'which does not exist.',
+        'inputs': {'family': 'shop', 'mode': 'simulate', 'steps': [
+            ['shop', ['RenameAppLabel', 'shop', 'shopy',
+                      {'model_names': ['Item']}]]]},
+    },
+    {
+        'property': 'C11',
+        'clause': 'rename-accepted',
+        'match': 'single RenameModel of a model that owns a '
+                 'ManyToManyField (auto-created through table)',
+        'predicate': _c11_m2m_owner_rename,
+        'what': 'RenameModel.mutate builds a MockModel under the NEW model '
+                'name before the signature is renamed; the mock through '
+                'model of the model\'s own ManyToManyField then looks up '
+                '"<app>.<NewName>" in the signature and raises '
+                'MissingSignatureError, so the owning side of a many-to-many '
+                'relation cannot be renamed at all.',
+        'inputs': {'family': 'shop', 'mode': 'separate', 'steps': [
+            ['shop', ['RenameModel', 'Order', 'OrderX',
+                      {'db_table': 'shop_orderx'}]]]},
+    },
+]
+
+
+def _main(argv):
+    prop = argv[1]
+    tier = argv[2] if len(argv) > 2 else 'quick'
+    seed = int(argv[3]) if len(argv) > 3 else 0
+    result = globals()['suite_%s' % prop](tier, seed)
+    print(json.dumps(result, indent=1, default=repr))
+
+
+if __name__ == '__main__':
+    _main(sys.argv)
+
+
